@@ -43,6 +43,8 @@ func runC02(w *World, r *Report) {
 	ruleOpResolve(w, r)
 	// flattening can raise an operand count: the limits check must see the optimised tree
 	ruleOrder(w, r)
+	// Compile works on a copy of the Config: what decides a pass (stateless list, options, costs) must survive the copy unshared
+	ruleCopyAll(w, r)
 }
 
 // runC10Core re-runs the folding rules of C10.
